@@ -332,10 +332,11 @@ def _quotient_power(ctx, model, dm):
                 continue
             zero = set()
             for _, pol, v in ps.conds:
-                for sub, p_ in _conj(v, pol):
-                    if sub[0] == "unop" and sub[1] == "Not" and sub[2][0] == "rec" \
-                            and p_:
-                        nm = atoms(sub[2])
+                from ..summary import facts_of
+                for sub, p_ in facts_of(v, pol):
+                    # "not rec(child)": the child's derivative vanishes
+                    if isinstance(sub, tuple) and sub[0] == "rec" and not p_:
+                        nm = atoms(sub)
                         if nm in ("df", "dg"):
                             zero.add(nm)
             try:
